@@ -12,7 +12,7 @@ T = table()
 node, sha, src = T.function(c.key)
 SX.number_loops(node)
 names = [x.arg for x in node.args.posonlyargs + node.args.args] + [x.arg for x in node.args.kwonlyargs]
-en = Engine(c.key.split('::')[0], contract=c, registry={k: v for k, v in registry.items() if k != c.key}, timeout=getattr(c, 'prune_ms', 250))
+en = Engine(c.key.split('::')[0], contract=c, registry={k: v for k, v in registry.items() if k != c.key}, timeout=int(__import__("os").environ.get("PYVC_PRUNE_MS", getattr(c, "prune_ms", 250))))
 qual = c.key.split('::')[1]
 if '.' in qual and qual.split('.')[-2] in T.classes: en.current_class = qual.split('.')[-2]
 A = c.args(en, names)
